@@ -4,6 +4,10 @@ import json, os
 HERE = os.path.dirname(os.path.dirname(os.path.abspath(__file__)))
 ALL = ["C%02d" % i for i in range(1, 21)]
 CLAIMED = {
+ "C04": dict(cat="model_checking", tech="TLA+ model of run_sim's presolve/rule loop (WntrSim.tla) checked by TLC to refine the declarative control semantics (Controls.tla); TLC-emitted timelines replayed into the real WNTRSimulator",
+   text="Controls.tla states the observable semantics of time/clock-time controls and rules (EPANET's, calibrated against the 2.2 toolkit); WntrSim.tla is the loop of run_sim action by action. For every scenario TLC runs the algorithm, checks that it refines the declarative timeline, and emits the expected solved times and statuses; the real simulator is run on the same scenario and must report exactly those. Scope S1 (every single control/rule body x option grid) is exhaustive in the thorough tier, S2 (sets of <=3 controls and <=3 rules, priorities, conflicts) is sampled.",
+   note="Trusted: TLC; hydraulics are irrelevant for time-only schedules (time family); outcomes the property leaves open are excluded by Controls!Determinate and counted.",
+   ref="DESIGN.md section 5 C04"),
  "C17": dict(cat="model_checking", tech="TLA+ normative unit table (Units.tla) + TLC trace validation of recorded to_si/from_si calls; exhaustive over the table",
    text="The complete finite table FlowUnits x (HydParam x darcy flag | QualParam x MassUnits x reaction order) is specified in TLA+ from the physical definitions; TLC checks the table lemmas (inverse, family partition) and validates every recorded call of the real to_si/from_si (scalars, lists, arrays, dicts) against it, and that the recorded rows cover the whole table. Exhaustive in the table, sampled in the value.",
    note="Trusted: TLC, the Dec.tla limb arithmetic (self-tested against Python fractions by setup), published precision of WNTR's documented constants (1e-8 relative; 1e-6 for the ft2 constant). DataFrame inputs not asserted.",
